@@ -233,6 +233,12 @@ func (m *Module) start(reports chan *report) {
 				fmt.Sprintf("Starting module %s failed", m.Name),
 				fmt.Sprintf("Failed to start module: %s", err.Error()),
 			)
+			// Return to offline, so that the module does not block the
+			// shutdown of its dependencies and may be started again.
+			m.Lock()
+			m.status = StatusOffline
+			m.Unlock()
+			m.notifyOfChange()
 		} else {
 			m.Lock()
 			m.status = StatusOnline
